@@ -107,6 +107,7 @@ func (e *Engine) branch(st *State, alts []Alt) bool {
 	}
 	if len(feas) == 0 {
 		e.endPath(st, "infeasible", "")
+		st.consumed = true
 		return false
 	}
 	if len(feas) == 1 {
@@ -143,6 +144,7 @@ func (e *Engine) branch(st *State, alts []Alt) bool {
 		e.runWith(s, a.Do)
 		e.sol.Pop()
 	}
+	st.consumed = true
 	return false
 }
 
@@ -225,6 +227,9 @@ func (e *Engine) runInner(st *State, pre func(*State)) (again bool) {
 	}()
 	if pre != nil {
 		pre(st)
+		if st.consumed {
+			return false
+		}
 	}
 	for {
 		if st.fr == nil {
